@@ -30,7 +30,7 @@ CHAIN = ["parse_or_expr", "parse_and_expr", "parse_not_expr", "parse_rel_expr", 
          "parse_unary_expr", "parse_pred_expr", "parse_primary_expr"]
 
 
-def parser_units(w):
+def parser_units(w, prop="C02"):
     U = []
     parser = w.import_module("ckl.parser").ns
     nodes = w.import_module("ckl.nodes").ns
@@ -133,6 +133,10 @@ def parser_units(w):
                 if it.path.branch(tokval(optok) == z3.StringVal(tok)):
                     it.check(f"step:`acc {tok} operand`-becomes-{native}(acc, operand)-left-associative",
                              both(is_funcall(it, st["expr"], native, [acc, new[0]["node"]]), toktype(optok) == z3.StringVal("operator")))
+                    if prop == "C20" and isinstance(st["expr"], Obj):
+                        pz = st["expr"].fields.get("pos")
+                        it.check("step:the-operation-is-positioned-at-its-operator-token (an error of the operation is reported on the operator's line)",
+                                 both(isinstance(pz, SElem), pz.z == TPOS(optok)) if isinstance(pz, SElem) else False)
                     return
             it.check("step:only-this-level's-operators-continue-the-loop", False, detail="iteration entered on another token")
         loop = Loop(inv, modifies=["lexer.nextToken"], decreases=lambda st: mk_int(N - nt(st["lexer"])), at_start=at_start, at_end=at_end,
@@ -279,6 +283,10 @@ def parser_units(w):
                     break
             else:
                 it.check("step:only-comparison-operators-continue-the-chain", False)
+        if prop == "C20" and isinstance(cmpnode, Obj):
+            pz = cmpnode.fields.get("pos")
+            it.check("step:the-comparison-is-positioned-at-its-operator (the last token of `is not`)",
+                     z3.Or(pz.z == TPOS(optok), pz.z == TPOS(optok + 1)) if isinstance(pz, SElem) else False)
         lst = st["result"].fields["expressions"]
         old = it.ghost["iter_seq"]
         it.check("step:exactly-one-conjunct-is-appended-per-comparison",
@@ -305,7 +313,8 @@ def parser_units(w):
     u = mk_unit("parse_rel_expr", post_rel, {0: rel_loop})
     u.config["local_kinds"] = {".expressions": "node"}
     U.append(u)
-    U.extend(isnot_units(w))
+    if prop == "C02":
+        U.extend(isnot_units(w))
     return U
 
 
